@@ -302,14 +302,14 @@ func (s *Service) AddMachine(ctx context.Context, specName, id, nodeName string,
 		},
 	}
 
+	// Hold the lock across the write (as Process does) and add the
+	// machine to the in-memory crew only once it has been stored:
+	// memory never gets ahead of the store, and no other request can
+	// slip its own write for this machine in between.
 	c.Lock()
-	_, have := c.Machines[id]
-	if !have {
-		c.Machines[id] = &m
-	}
-	c.Unlock()
+	defer c.Unlock()
 
-	if have {
+	if _, have := c.Machines[id]; have {
 		return Exists
 	}
 
@@ -320,7 +320,13 @@ func (s *Service) AddMachine(ctx context.Context, specName, id, nodeName string,
 		Bs:         m.State.Bs,
 	}
 
-	return s.store.WriteState(ctx, s.crewName, []*MachineState{&ms})
+	if err := s.store.WriteState(ctx, s.crewName, []*MachineState{&ms}); err != nil {
+		return err
+	}
+
+	c.Machines[id] = &m
+
+	return nil
 }
 
 func (s *Service) RemMachine(ctx context.Context, mid string) error {
@@ -331,11 +337,18 @@ func (s *Service) RemMachine(ctx context.Context, mid string) error {
 
 	// ToDo: Remove timers?
 
+	// As in AddMachine: write under the lock, and forget the machine
+	// only when the store has.
 	s.crew.Lock()
-	delete(s.crew.Machines, mid)
-	s.crew.Unlock()
+	defer s.crew.Unlock()
 
-	return s.store.WriteState(ctx, s.crewName, []*MachineState{&ms})
+	if err := s.store.WriteState(ctx, s.crewName, []*MachineState{&ms}); err != nil {
+		return err
+	}
+
+	delete(s.crew.Machines, mid)
+
+	return nil
 }
 
 func (s *Service) Route(ctx context.Context, msg interface{}) ([]string, bool, error) {
